@@ -70,6 +70,13 @@ TRACE_CONSTS = dict(NHosts=3, PoolConds={"missing", "shutdown", "busy", "failing
                     Decisions=D4, CLs={0, 1, 4, 6}, MaxRetries=3, MaxEpoch=2, Timeouts=True, Late=True)
 
 ACTIONS = ["Start", "AnsOk", "AnsErr", "SpecFire", "TimeoutFire", "RetryTask"]
+# Witness_* predicates of Request.tla (negated reachability) that TLC itself must violate on the first graph configuration
+TLA_WITNESSES = {
+    "C14": ["Witness_LateAnswer", "Witness_TwoInFlight", "Witness_TimeoutKeepsAtt", "Witness_RetryAfterTimeout"],
+    "C15": ["Witness_Page2Unset", "Witness_Page2Timeout"],
+    "C16": ["Witness_SameHostTwice", "Witness_RetryCL"],
+    "C17": ["Witness_NoHost", "Witness_NoHostAfterSend", "Witness_SkipAll"],
+}
 
 
 def _tup(v):
@@ -286,6 +293,8 @@ def run(ctx, pid):
     if unreached:
         raise tlc.MachineryError("vacuity witnesses not reachable: %s" % unreached)
     ctx.note("vacuity_witnesses_reached", sorted(witnesses))
+    ctx.note("nontrivial_rule", "a replayed behaviour counts when it contains a timer firing, a retry task or a page fetch, or has "
+                                "at least 4 actions (distinct action sequences); a recorded trace counts when it contains one of those events")
 
     # ---- C15: liveness under fairness of the timer callbacks (every incomplete execution / page fetch completes)
     if pid == "C15":
@@ -300,6 +309,13 @@ def run(ctx, pid):
 
     # ---- thorough: a large exhaustive model and simulated behaviours of it replayed on the real objects
     if not ctx.quick:
+        for wname in TLA_WITNESSES[pid]:
+            wcfg = tlc.write_cfg(os.path.join(ctx.scratch, wname + ".cfg"), constants=GRAPHS[pid][0][1], invariants=[wname],
+                                 deadlock=False)
+            wres = tlc.check_model("Request", wcfg, ctx.scratch, timeout=600)
+            if wres.invariant != wname:
+                raise tlc.MachineryError("vacuity witness %s not reachable according to TLC" % wname)
+        ctx.note("tlc_witnesses_violated", TLA_WITNESSES[pid])
         label, big = BIG[pid]
         res, _, _, _ = check_spec(ctx, pid, "exhaustive (thorough): " + label, big, graph=False)
         if res is None:
